@@ -376,6 +376,32 @@ class Ctx:
             self.inconclusive.append("%s shard hit the wall-clock watchdog at case %s" % (label, res["last"]))
             self.violation_or_inconclusive_timeout(label, res, rcmd)
             return
+        if res["rc"] == 87 and "HX-WATCHDOG" in res["err"] and res["last"] is not None:
+            # a case exceeded its wall-clock budget: re-run it alone once; a repeated hang is a violation,
+            # otherwise the firing is inconclusive (loaded machine)
+            self.count("case_watchdog_fired")
+            if ("hang|%s" % label) in self._viol_seen or self.match_finding("hang|%s" % label):
+                self.violation("hang|%s" % label, "case %s did not finish within its wall-clock budget" % res["last"],
+                               {"argv": rcmd, "exit": 87})
+                return
+            try:
+                e2 = dict(os.environ); e2.update(SAN_ENV)
+                r2 = subprocess.run(rcmd, stdout=subprocess.PIPE, stderr=subprocess.PIPE, env=e2, timeout=400)
+                again = r2.returncode == 87
+                err2 = r2.stderr.decode("utf-8", "replace")
+            except subprocess.TimeoutExpired:
+                again, err2 = True, ""
+            if again:
+                self.violation("hang|%s" % label, "case %s did not finish within its wall-clock budget, twice (alone the second "
+                               "time)" % res["last"], {"argv": rcmd, "exit": 87})
+            else:
+                rep2 = parse_sanitizer(err2)
+                if rep2:
+                    for key, excerpt in rep2:
+                        self.violation(key, excerpt, {"argv": rcmd})
+                else:
+                    self.inconclusive.append("%s: case %s hit the case watchdog once and finished when re-run alone" % (label, res["last"]))
+            return
         dl = [ln for ln in res["err"].splitlines() if ln.startswith("SCHED-DEADLOCK")]
         if dl:
             ops = sorted(set(re.findall(r"\[T\d+ ([a-z-]+)[^\]]* in (\w+)\]", dl[0])))
